@@ -161,29 +161,21 @@ def _strip(h):
     return [{k: v for k, v in st.items() if k != "res"} for st in h]
 
 
-def _gen(ctx, a, maxlen, sim=0, simlen=10):
-    """histories of configuration a under both expiry predicates (the set of values peers can
-    exchange depends on it), without the predicted outcomes"""
-    jobs = []
-    for impl in IMPLS:
-        jobs.append(lambda impl=impl: ctx.tlc("GenRendezvous", "Gen_Rendezvous.cfg", name="gen_%s_%s" % (a.name, impl),
-                                              workers=1, consts=a.consts(impl, maxlen), timeout=1500, heap="4g"))
-        if sim:
-            jobs.append(lambda impl=impl: ctx.tlc("GenRendezvous", "Gen_Rendezvous.cfg", name="sim_%s_%s" % (a.name, impl),
-                                                  workers=1, simulate="num=%d" % sim, depth=simlen + 2,
-                                                  consts=a.consts(impl, simlen), timeout=1500, heap="4g"))
-    return jobs
-
-
-def _collect(results):
+def _collect(results, caps):
+    """distinct histories of several TLC runs; caps[i] bounds what is taken from run i (TLC's
+    simulator prints more walks than asked for)"""
     seen, out = set(), []
-    for r in results:
+    for r, cap in zip(results, caps):
+        n = 0
         for h in r.printed.get("SCRIPT", []):
+            if cap is not None and n >= cap:
+                break
             s = _strip(h)
             k = json.dumps(s, sort_keys=True)
             if k not in seen:
                 seen.add(k)
                 out.append(s)
+                n += 1
     out.sort(key=lambda s: json.dumps(s, sort_keys=True))
     return out
 
@@ -197,48 +189,61 @@ def _nontrivial(steps):
 
 
 # ------------------------------------------------------------------ validation of one group
-def _validate_prefixed(ctx, evs, name, max_rejects=2, timeout=1500):
-    """like vf.validate_blocks (monitor only), but the first block (configuration + digest table of
-    the group) is kept in front of whatever remains to be validated after a rejected block"""
-    blocks = vf.split_traces(evs)
-    head, cur = blocks[0], blocks[1:]
+def _validate_groups(ctx, groups, name, max_rejects=3, timeout=1500):
+    """monitor over several groups; groups = [(head block, [script blocks])], a head block being the
+    configuration + digest table of its group.  Like vf.validate_blocks: after a rejected block the
+    remainder is validated again - with the head of its group in front."""
     d = ctx.sub("val_" + name)
     rejects, good, rounds = [], 0, 0
-    while True:
+    todo = [(h, list(bl)) for h, bl in groups]
+    while todo:
         rounds += 1
-        flat = [{"ev": "reset", "id": head[0]}] + head[1]
-        index = []
-        for bid, e in cur:
-            index.append(len(flat))
-            flat.append({"ev": "reset", "id": bid})
-            flat.extend(e)
+        flat, index = [], []          # index: (start line, group no, block no or -1 for the head)
+        for gi, (head, bl) in enumerate(todo):
+            index.append((len(flat), gi, -1))
+            flat.append({"ev": "reset", "id": head[0]})
+            flat.extend(head[1])
+            for bi, (bid, e) in enumerate(bl):
+                index.append((len(flat), gi, bi))
+                flat.append({"ev": "reset", "id": bid})
+                flat.extend(e)
         tp = os.path.join(d, "t%d.ndjson" % rounds)
         vf.write_ndjson(tp, flat)
         ok, info = ctx.validate_trace(MON[0], MON[1], tp, name="%s_mon%d" % (name, rounds), timeout=timeout)
         if ok:
-            good += len(cur)
+            good += sum(len(bl) for _, bl in todo)
             break
         if "high" not in info:
             raise vf.Infra("monitor broke on observed trace: %s" % info)
         pos = info["high"]
-        if not index or pos < index[0]:
-            rejects.append({"id": head[0], "info": info, "events": head[1], "at": pos - 1})
-            break                   # the digest table itself is refused: nothing else can be read
-        bi = max(i for i, start in enumerate(index) if start <= pos)
-        rejects.append({"id": cur[bi][0], "info": info, "events": cur[bi][1], "at": pos - index[bi] - 1})
-        good += bi
-        cur = cur[bi + 1:]
-        if len(rejects) >= max_rejects or not cur:
+        start, gi, bi = max(x for x in index if x[0] <= pos)
+        good += sum(len(bl) for _, bl in todo[:gi])
+        head, bl = todo[gi]
+        if bi < 0:
+            # the digest table itself is refused: the rest of this group cannot be read
+            rejects.append({"id": head[0], "info": info, "events": head[1], "at": pos - start - 1})
+            todo = todo[gi + 1:]
+        else:
+            rejects.append({"id": bl[bi][0], "info": info, "events": bl[bi][1], "at": pos - start - 1})
+            good += bi
+            todo = ([(head, bl[bi + 1:])] if bl[bi + 1:] else []) + todo[gi + 1:]
+        if len(rejects) >= max_rejects:
             break
     ctx.traces_validated += good
     return good, rejects
 
 
-def _validate_group(ctx, a, evs, name, impl_hint):
+def _validate_abs(ctx, a, groups, impl_hint):
     """monitor (verdict) + conformance with the expiry predicate that matches the tree"""
-    acc, rejects = _validate_prefixed(ctx, evs, name)
+    name = "abs_" + a.name
+    acc, rejects = _validate_groups(ctx, groups, name)
     impl_ok = None
     if not rejects:
+        evs = []
+        for head, bl in groups:
+            for bid, e in bl:
+                evs.append({"ev": "reset", "id": bid})
+                evs.extend(e)
         d = ctx.sub("val_" + name)
         tp = os.path.join(d, "strict.ndjson")
         vf.write_ndjson(tp, evs)
@@ -282,26 +287,25 @@ def run(ctx, replay=None):
         return _replay(ctx, rp, ov_virtual)
 
     off_sub = [(0, 0), (0, 1), (599, 999999999), (600, 0)]
+    # Abs(name, ticks per period, seconds per tick, tick increments, number of ticks);
+    # bfs = exhaustive history length (0: random walks only); per offset: how many histories
     if quick:
-        confs = [Abs("day2", 2, 43200, {1}, 4, offsets=off_sub[:3] + [(43199, 999999999)]),
-                 Abs("min1", 1, 600, {1, 144}, 3, offsets=[(0, 0), (599, 0)]),
-                 Abs("sec2", 2, 1, {1}, 3, offsets=[(0, 500000000)])]
-        maxlen, sim, simlen = 4, 150, 9
+        confs = [(Abs("day2", 2, 43200, {1}, 4, offsets=off_sub[:3] + [(43199, 999999999)]), 4, 150, 9, [None, 500, 500, 400]),
+                 (Abs("min1", 1, 600, {1, 144}, 3, offsets=[(0, 0), (599, 0)]), 0, 400, 8, [None, 250]),
+                 (Abs("sec2", 2, 1, {1}, 3, offsets=[(0, 500000000)]), 0, 400, 7, [None])]
     else:
-        confs = [Abs("day2", 2, 43200, {1}, 5, offsets=off_sub + [(43199, 999999999)]),
-                 Abs("day1", 1, 86400, {1, 2}, 4, offsets=off_sub[:3]),
-                 Abs("min1", 1, 600, {1, 144}, 4, offsets=[(0, 0), (599, 0), (1, 0)]),
-                 Abs("min2", 2, 600, {1, 143, 145}, 4, offsets=[(0, 0), (599, 999999999)]),
-                 Abs("sec2", 2, 1, {1, 600, 86400}, 4, offsets=[(0, 500000000), (0, 0)]),
-                 Abs("sec1", 1, 1, {1}, 4, offsets=[(0, 500000000)]),
-                 Abs("two", 2, 43200, {1}, 3, topics=("t1", "t2"), offsets=[(0, 0)])]
-        maxlen, sim, simlen = 5, 1500, 12
+        confs = [(Abs("day2", 2, 43200, {1}, 5, offsets=off_sub + [(43199, 999999999)]), 5, 1500, 12, [20000, 3000, 3000, 3000, 3000]),
+                 (Abs("day1", 1, 86400, {1, 2}, 4, offsets=off_sub[:3]), 4, 1000, 10, [None, 2000, 2000]),
+                 (Abs("min1", 1, 600, {1, 144}, 4, offsets=[(0, 0), (599, 0), (1, 0)]), 4, 1000, 10, [None, 2000, 2000]),
+                 (Abs("min2", 2, 600, {1, 143, 145}, 4, offsets=[(0, 0), (599, 999999999)]), 0, 2500, 10, [None, 1500]),
+                 (Abs("sec2", 2, 1, {1, 600, 86400}, 4, offsets=[(0, 500000000), (0, 0)]), 4, 1000, 10, [None, 2000]),
+                 (Abs("sec1", 1, 1, {1}, 4, offsets=[(0, 500000000)]), 0, 1500, 9, [None]),
+                 (Abs("two", 2, 43200, {1}, 3, topics=("t1", "t2"), offsets=[(0, 0)]), 0, 3000, 9, [None])]
 
     # ---- 1. model checking of the design: the property holds with the deadline-passed predicate,
     #         and P_Resolve breaks with the predicate as written (design-level reading of the suspicion)
-    mc = {"Topics": '{"t1"}', "T": "5", "MaxTicks": "5"}
-    jobs = [lambda: ctx.tlc_expect_ok("Rendezvous", "MC_Rendezvous.cfg", name="mc_I2", workers=2,
-                                      consts=dict(mc, T="4" if quick else "5", MaxTicks="4" if quick else "5")),
+    mc = {"Topics": '{"t1"}', "T": "3" if quick else "5", "MaxTicks": "3" if quick else "5"}
+    jobs = [lambda: ctx.tlc_expect_ok("Rendezvous", "MC_Rendezvous.cfg", name="mc_I2", workers=2, consts=mc, timeout=1500),
             lambda: ctx.tlc("Rendezvous", "MC_Rendezvous.cfg", name="mc_I2_aswritten", workers=1,
                             consts=dict(mc, ImplExpired='"ttl_gt_0"'), allow_violation=True, count=False)]
     if not quick:
@@ -310,60 +314,78 @@ def run(ctx, replay=None):
         jobs.append(lambda: ctx.tlc_expect_ok("Rendezvous", "MC_Rendezvous.cfg", name="mc_leap", workers=2,
                                               consts=dict(mc, I="1", G="144", Gmin="1", Steps="{1, 144}", T="300", MaxTicks="3"),
                                               timeout=1500))
-    # ---- 2. generation
-    gj = []
-    for a in confs:
-        gj.append((a, _gen(ctx, a, maxlen, sim, simlen)))
-    flat = jobs + [j for _, js in gj for j in js]
-    res = _par(flat)
+    # ---- 2. generation (both expiry predicates: the values peers can exchange depend on it)
+    gj, gcaps = [], []
+    for a, bfs, sim, simlen, _ in confs:
+        js = []
+        gcaps.append(([None] if bfs else []) * 1 + [sim])
+        gcaps[-1] = gcaps[-1] * len(IMPLS)
+        for impl in IMPLS:
+            if bfs:
+                js.append(lambda a=a, impl=impl, bfs=bfs: ctx.tlc(
+                    "GenRendezvous", "Gen_Rendezvous.cfg", name="gen_%s_%s" % (a.name, impl), workers=1,
+                    consts=a.consts(impl, bfs), timeout=1500, heap="4g"))
+            js.append(lambda a=a, impl=impl, sim=sim, simlen=simlen: ctx.tlc(
+                "GenRendezvous", "Gen_Rendezvous.cfg", name="sim_%s_%s" % (a.name, impl), workers=1,
+                simulate="num=%d" % max(10, sim // 8), depth=simlen + 2, consts=a.consts(impl, simlen), timeout=1500, heap="4g"))
+        gj.append(js)
+    res = _par(jobs + [j for js in gj for j in js])
     ctx.extra["design_level"] = {"ttl_le_0": "all invariants hold", "ttl_gt_0": "violates " + str(res[1].violated)}
     if res[1].violated != "P_Resolve":
         raise vf.Infra("model self-test: the as-written expiry predicate should break P_Resolve in Rendezvous.tla")
     pos = len(jobs)
     scripts, groups = [], []          # groups: (gid, Abs, off, [script ids])
-    for a, js in gj:
-        hs = _collect(res[pos:pos + len(js)])
+    for (a, bfs, sim, simlen, per_off), js, caps in zip(confs, gj, gcaps):
+        hs = _collect(res[pos:pos + len(js)], caps)
         pos += len(js)
         if not hs:
             raise vf.Infra("no history generated for " + a.name)
-        for oi, off in enumerate(a.offsets):
-            sel = hs
-            if quick and oi > 0 and len(hs) > 1200:
-                sel = ctx.rng.sample(hs, 1200)
+        ctx.extra.setdefault("histories", {})[a.name] = len(hs)
+        for off, cap in zip(a.offsets, per_off):
+            sel = hs if cap is None or len(hs) <= cap else ctx.rng.sample(hs, cap)
             gid = len(groups)
             ids = []
             for h in sel:
                 scripts.append({"id": len(scripts), "cfg": a.cfg(gid, off), "steps": h})
                 ids.append(scripts[-1]["id"])
             groups.append((gid, a, off, ids))
-        ctx.extra.setdefault("histories", {})[a.name] = len(hs)
 
-    # ---- 3. replay under the virtual clock, pure functions, real-time twins
-    events, _ = vf.run_driver(ctx, PKG, DRV, ov_virtual, scripts, "virtual", timeout=1500)
+    # ---- 3. replay under the virtual clock (+ pure functions in the same driver run)
+    npure = 3000 if quick else 40000
+    events, _ = vf.run_driver(ctx, PKG, DRV, ov_virtual, scripts, "virtual", timeout=1500, env={"VERIF_PURE_N": npure})
     blocks = dict(vf.split_traces(events))
-    if any(s["id"] not in blocks for s in scripts) or any((-1 - g[0]) not in blocks for g in groups):
+    if any(s["id"] not in blocks for s in scripts) or any((-1 - g[0]) not in blocks for g in groups) or PURE_ID not in blocks:
         raise vf.Infra("driver did not record every script")
     byid = {s["id"]: s for s in scripts}
     impl_hint = [None]
-    vjobs = []
+    by_abs = {}
     for gid, a, off, ids in groups:
-        evs = [{"ev": "reset", "id": -1 - gid}] + blocks[-1 - gid]
-        for i in ids:
-            evs.append({"ev": "reset", "id": i})
-            evs.extend(blocks[i])
-        vjobs.append(lambda a=a, evs=evs, name="g%d_%s" % (gid, a.name): _validate_group(ctx, a, evs, name, impl_hint))
-    # the first group alone fixes the matching predicate, the others then try it first
-    first = vjobs[0]()
-    rest = _par(vjobs[1:])
+        by_abs.setdefault(a.name, (a, []))[1].append(((-1 - gid, blocks[-1 - gid]), [(i, blocks[i]) for i in ids]))
+    vjobs = [lambda a=a, gl=gl: _validate_abs(ctx, a, gl, impl_hint) for a, gl in by_abs.values()]
+    pure_ev = [{"ev": "reset", "id": PURE_ID}] + blocks[PURE_ID]
+    # real-time twins and the pure-function trace are handled while TLC validates the replays
+    with ThreadPoolExecutor(max_workers=2) as side:
+        rt = side.submit(lambda: _realtime(ctx, scripts, blocks, 16 if quick else 32))
+        pu = side.submit(lambda: _pure_validate(ctx, pure_ev))
+        # the first configuration alone fixes the matching predicate, the others then try it first
+        results = [vjobs[0]()] + _par(vjobs[1:])
+        pu.result()
+        rt_err = None
+        try:
+            rt.result()
+        except vf.Infra as e:
+            rt_err = e
     impls = set()
-    for (gid, a, off, ids), (acc, rejects, impl_ok) in zip(groups, [first] + rest):
+    gof = {-1 - gid: (a, off, gid) for gid, a, off, ids in groups}
+    for (a, gl), (acc, rejects, impl_ok) in zip(by_abs.values(), results):
         if impl_ok:
             impls.add(impl_ok)
         for rj in rejects:
             line = rj["info"].get("line", {})
             if rj["id"] < 0:
+                ga, off, gid = gof[rj["id"]]
                 what = "digest / period rounding breaks C17: %s" % json.dumps(line, sort_keys=True)[:300]
-                ctx.violation(what, {"universe": a.cfg(gid, off), "rejected_line": line})
+                ctx.violation(what, {"universe": ga.cfg(gid, off), "rejected_line": line})
                 continue
             sc = byid[rj["id"]]
             what = "real RotationInterval breaks C17 at step %s (interval %ss): %s" % (
@@ -378,19 +400,15 @@ def run(ctx, replay=None):
                               "observed": [{k: v for k, v in e.items() if k != "st"} for e in blocks[s["id"]]]}], limit=2)
             if len(ctx.samples) >= 2:
                 break
-
-    _pure(ctx, ov_virtual, 3000 if quick else 40000)
-    _realtime(ctx, scripts, blocks, 16 if quick else 32)
+    if rt_err and not ctx.violations:
+        raise rt_err
     return _finish(ctx)
 
 
-def _pure(ctx, ov, n):
-    d = ctx.sub("drv_pure")
-    tp = os.path.join(d, "trace.ndjson")
-    rc, out = ctx.go_test(PKG, DRV_PURE, ov, env={"VERIF_TRACE_OUT": tp, "VERIF_PURE_N": n}, timeout=900, name="pure")
-    if "VERIF-INFRA" in out or rc != 0 or not os.path.exists(tp):
-        raise vf.Infra("pure-function driver failed:\n" + "\n".join(out.splitlines()[-30:]))
-    ev = vf.read_ndjson(tp)
+PURE_ID = -1000000
+
+
+def _pure_validate(ctx, ev):
     acc, rejects = vf.validate_blocks(ctx, MON, ev, "pure", timeout=1500)
     np_ = sum(1 for e in ev if e.get("ev") == "pure")
     ctx.evaluations += np_
@@ -400,6 +418,15 @@ def _pure(ctx, ov, n):
         line = rj["info"].get("line", {})
         ctx.violation("pure rendezvous function breaks C17: %s" % json.dumps(line, sort_keys=True)[:300],
                       {"pure": line.get("i"), "rejected_line": line})
+
+
+def _pure(ctx, ov, n):
+    d = ctx.sub("drv_pure")
+    tp = os.path.join(d, "trace.ndjson")
+    rc, out = ctx.go_test(PKG, DRV_PURE, ov, env={"VERIF_TRACE_OUT": tp, "VERIF_PURE_N": n}, timeout=900, name="pure")
+    if "VERIF-INFRA" in out or rc != 0 or not os.path.exists(tp):
+        raise vf.Infra("pure-function driver failed:\n" + "\n".join(out.splitlines()[-30:]))
+    _pure_validate(ctx, vf.read_ndjson(tp))
 
 
 def _realtime(ctx, scripts, blocks, n):
